@@ -36,6 +36,19 @@ inductive Strand where
   | Unknown
   deriving Repr, DecidableEq
 
+/-- `String::from_utf8(vec![b])`: a single byte is valid UTF-8 exactly when it is ASCII -/
+def fromUtf8One (b : Nat) : Option (List Nat) := if b < 128 then some [b] else none
+
+/-- an optional leading `+` removed -/
+def stripPlus (s : List Nat) : List Nat := if s.head? = some 43 then s.tail else s
+
+/-- `u8::from_str(s)` (`core::num`, radix 10) with the error erased: an optional `+`, then at least one ASCII digit, no other
+character, value at most 255 (leading zeros are accepted) -/
+def parseU8 (s : List Nat) : Except Unit Nat :=
+  let ds := stripPlus s
+  if ds.isEmpty || !ds.all (fun c => decide (48 ≤ c) && decide (c ≤ 57)) then .error ()
+  else if ds.foldl (fun a c => a * 10 + (c - 48)) 0 < 256 then .ok (ds.foldl (fun a c => a * 10 + (c - 48)) 0) else .error ()
+
 theorem charStr_ascii (c : Nat) (h : c < 128) : charStr c = [c] := by
   simp [charStr, h]
 
